@@ -67,16 +67,17 @@ fn check_shift_time(context: &CheckerContext) -> GenericResult<()> {
         let departure = parse_time(&start.schedule().departure);
         let arrival = parse_time(&end.schedule().arrival);
 
+        // NOTE: tour has to fit into its own shift, not into any shift of the vehicle
         let has_match = vehicle
             .shifts
-            .iter()
+            .get(tour.shift_index)
             .map(|shift| {
                 let start = parse_time(&shift.start.earliest);
                 let end = shift.end.as_ref().map(|end| parse_time(&end.latest)).unwrap_or(Float::MAX);
 
                 (start, end)
             })
-            .any(|(start, end)| departure >= start && arrival <= end);
+            .is_some_and(|(start, end)| departure >= start && arrival <= end);
 
         if !has_match {
             Err(format!(
